@@ -18,7 +18,7 @@ def drive(ctx, fmt, n_cases, precisions, hostile=True, fixture_precisions=(), ke
     for i, rng in ctx.cases("generated", n_cases):
         defaults = fmt == "pb" and i % 4 == 3
         try:
-            sc, pps = ScenarioGen(rng, i, fmt, hostile=hostile, ctx=ctx, defaults=defaults).build()
+            sc, pps = ScenarioGen(rng, i, fmt, hostile=hostile, ctx=ctx, defaults=defaults, three_d=(i % 6 == 5)).build()
         except Exception as e:  # noqa
             import traceback
             ctx.violation("%s/harness/generator-raises-%s" % (prop, type(e).__name__), traceback.format_exc()[-600:], {"i": i})
